@@ -55,22 +55,25 @@ package config
 // C16: AddRequiredFields adds the identity columns an integration's shape
 // needs, each with a block-data entry of the same name so that the row
 // builder fills it, and keeps what the user declared.
+// C04 rests on the same facts: every row carries its own (ig_name, src_name)
+// because the block-data entries exist whether or not the user declared the
+// columns, and Delete/cursor statements select by them.
 //@ spec opaque colAt(ig *Integration, k int) wpg.Column = (*ig).Table.Columns[k]
 //@ spec opaque bdAt(ig *Integration, k int) dig.BlockData = (*ig).Block[k]
 //@ spec igHasCol(ig *Integration, name string) bool = exists j int :: 0 <= j && j < len((*ig).Table.Columns) && colAt(ig, j).Name == name
 //@ spec igHasBD(ig *Integration, name string) bool = exists j int :: 0 <= j && j < len((*ig).Block) && bdAt(ig, j).Name == name
 
-//@ func (*Integration).AddRequiredFields$1 props=C16
+//@ func (*Integration).AddRequiredFields$1 props=C16,C04
 //@   requires ig != nil
 //@   ensures [found] result ==> (exists j int witness rangeindex :: 0 <= j && j < len((*ig).Block) && (*ig).Block[j].Name == name)
 //@   ensures [absent] !result ==> (forall j int :: 0 <= j && j < len((*ig).Block) ==> (*ig).Block[j].Name != name)
 //@   loop#0 invariant forall j int :: 0 <= j && j <= rangeindex ==> (*ig).Block[j].Name != name
-//@ func (*Integration).AddRequiredFields$2 props=C16
+//@ func (*Integration).AddRequiredFields$2 props=C16,C04
 //@   requires ig != nil
 //@   ensures [found] result ==> (exists j int witness rangeindex :: 0 <= j && j < len((*ig).Table.Columns) && (*ig).Table.Columns[j].Name == name)
 //@   ensures [absent] !result ==> (forall j int :: 0 <= j && j < len((*ig).Table.Columns) ==> (*ig).Table.Columns[j].Name != name)
 //@   loop#0 invariant forall j int :: 0 <= j && j <= rangeindex ==> (*ig).Table.Columns[j].Name != name
-//@ func (*Integration).AddRequiredFields$3 props=C16
+//@ func (*Integration).AddRequiredFields$3 props=C16,C04
 //@   requires ig != nil
 //@   ensures [col] exists j int witness len((*ig).Table.Columns) - 1, _ :: 0 <= j && j < len((*ig).Table.Columns) && colAt(ig, j).Name == name
 //@   ensures [bd] exists j int witness len((*ig).Block) - 1, _ :: 0 <= j && j < len((*ig).Block) && bdAt(ig, j).Name == name
@@ -82,7 +85,7 @@ package config
 // "trace_" (the loop reads the elements through the slice taken before the
 // loop while add may reallocate it; the frame needed for that is not
 // expressible in the contract language) - covered by the bounded stand-in.
-//@ func (*Integration).AddRequiredFields props=C16
+//@ func (*Integration).AddRequiredFields props=C16,C04
 //@   requires ig != nil
 //@   ensures [identity] igHasCol(ig, "ig_name") && igHasCol(ig, "src_name") && igHasCol(ig, "block_num") && igHasCol(ig, "tx_idx")
 //@   ensures [identity-filled] igHasBD(ig, "ig_name") && igHasBD(ig, "src_name") && igHasBD(ig, "block_num") && igHasBD(ig, "tx_idx")
